@@ -95,3 +95,24 @@ Example burst_one_ok_accepted :
     b_starts := [RRejected; RRejected; ROk; RRejected]; b_others := [RStatus NotStarted; RStatus Completed];
     b_execs := 1; b_final := RStatus Completed |}) = [0%nat].
 Proof. vm_compute. reflexivity. Qed.
+
+(* a rejected Start must leave nothing behind: Wait on the (stale, never started) plan blocked = violation;
+   the same history with a prompt Wait is followed by the model *)
+Example phantom_waiter_is_violation :
+  check_case (CHist {| h_max := hh; h_now := t0;
+    h_pre := [({| pl_status := NotStarted; pl_submit := Some (t0 - hh - 120000); pl_valid := true |}, true)];
+    h_ops := [(HStart 0, RRejected); (HWait 0, RCanceled)]; h_execs := [0%nat] |}) = [1%nat; 9%nat; 2%nat].
+Proof. vm_compute. reflexivity. Qed.
+
+Example phantom_waiter_after_finish_is_violation :
+  check_case (CHist {| h_max := hh; h_now := t0; h_pre := [];
+    h_ops := [(HSubmit true true, ROk); (HStart 0, ROk); (HWait 0, RStatus Completed); (HStart 0, RRejected);
+              (HWait 0, RCanceled)]; h_execs := [1%nat] |}) = [1%nat; 9%nat; 5%nat].
+Proof. vm_compute. reflexivity. Qed.
+
+Example prompt_wait_after_rejected_start_accepted :
+  check_case (CHist {| h_max := hh; h_now := t0;
+    h_pre := [({| pl_status := NotStarted; pl_submit := Some (t0 - hh - 120000); pl_valid := true |}, true)];
+    h_ops := [(HStart 0, RRejected); (HWait 0, RStatus NotStarted); (HStart 0, RRejected)];
+    h_execs := [0%nat] |}) = [0%nat].
+Proof. vm_compute. reflexivity. Qed.
